@@ -292,7 +292,18 @@ where
 
         variables.copy_from(prev_variables);
         #[cfg(clarabel_verif)]
-        crate::verif::emit_simple("Rollback", &[], &[]);
+        if crate::verif::is_on() {
+            use crate::verif::{f64_of, vec_of};
+            let mut e = crate::verif::Event {
+                name: "Rollback",
+                f: vec![f64_of(variables.τ), f64_of(variables.κ)],
+                ..Default::default()
+            };
+            if variables.x.len().max(variables.s.len()) <= crate::verif::detail() {
+                e.v = vec![vec_of(&variables.x), vec_of(&variables.s), vec_of(&variables.z)];
+            }
+            crate::verif::emit(e);
+        }
     }
 
     fn save_scalars(&mut self, μ: T, α: T, σ: T, iter: u32) {
